@@ -1336,6 +1336,8 @@ pub fn scen_proof(m: &Model, setup: &Setup, kind: u8, opt: Option<&OptSpec>, dir
 
 #[derive(Default)]
 pub struct FixLog {
+    /// every decision of the solve with the domains in which it was made (for the `nlsearch` record)
+    pub script: Vec<(String, String)>,
     pub lines: Vec<String>,
     pub pending: Option<(String, String)>,
     pub learned: bool,
@@ -1393,7 +1395,10 @@ impl pumpkin_solver::branching::Brancher for FixRecorder {
             if id >= 1 && id <= self.ids.len() {
                 let mut a = String::new();
                 atom_of(p).emit(&mut a);
+                log.script.push((now.clone(), a.clone()));
                 log.pending = Some((now, a));
+            } else {
+                log.script.push((now, " foreign 0 0".into()));
             }
         }
         d
@@ -1487,4 +1492,58 @@ pub fn scen_fix(m: &Model, setup: &Setup, solves: usize, out: &mut Out) {
         out.push(l.clone());
     }
     out.meta(format!("fix steps={} conflicts={} learned={}", log.steps, log.conflicts, log.learned));
+}
+
+
+/// The whole search loop against Model/Search.lean: a solve with `ConflictResolver::NoLearning` and
+/// without restarts; the record carries the root state, every decision with the domains in which it
+/// was made (also after every backtrack) and the final answer. The Lean model replays the decisions
+/// and must be in the same domains at every decision point and end with the same answer.
+pub fn scen_nlsearch(m: &Model, setup: &Setup, out: &mut Out) {
+    let mut opts = setup.opts.clone();
+    opts.resolver_uip = false;
+    opts.no_restarts = true;
+    let solver = Solver::with_options(opts.to_solver_options());
+    let mut built = build(solver, m, false, false, setup.style_seed);
+    out.push(format!("model {}", m.emit()));
+    if built.failed_at.is_some() {
+        out.push("nlsearch posterr");
+        return;
+    }
+    let decl: Vec<Vec<i32>> = m.vars.iter().map(|d| d.values.clone()).collect();
+    let log = std::rc::Rc::new(RefCell::new(FixLog { first: true, ..Default::default() }));
+    let inner = make_brancher(&setup.bspec, &built.solver, &built.vars.ids);
+    let mut brancher = FixRecorder { inner, ids: built.vars.ids.clone(), decl, log: log.clone(), max_lines: 0 };
+    let mut term = StopAt::never();
+    let res = built.solver.satisfy(&mut brancher, &mut term);
+    let answer = match res {
+        SatisfactionResult::Satisfiable(sol) => match extract(sol.as_reference(), &built.vars) {
+            Some(vs) => format!("sat {}", fmt_vals(&vs)),
+            None => {
+                out.push("partial nlsearch");
+                return;
+            }
+        },
+        SatisfactionResult::Unsatisfiable => "unsat".to_string(),
+        SatisfactionResult::Unknown => {
+            out.push("nonterm nlsearch");
+            return;
+        }
+    };
+    let log = log.borrow();
+    if log.script.len() > 400 || log.script.iter().any(|(_, a)| a.contains("foreign")) {
+        out.meta(format!("nlsearch skipped decisions={}", log.script.len()));
+        return;
+    }
+    let root = log.lines.iter().find(|l| l.starts_with("fix root ok ")).map(|l| l["fix root ok ".len()..].to_string());
+    let mut rec = format!("nlsearch {} {}", log.script.len(), match root {
+        Some(r) => r,
+        None => "-".to_string(),
+    });
+    for (st, a) in &log.script {
+        rec.push_str(&format!(" {}{}", st, a));
+    }
+    rec.push_str(&format!(" :: {}", answer));
+    out.push(rec);
+    out.meta(format!("nlsearch decisions={} conflicts={}", log.script.len(), log.conflicts));
 }
